@@ -144,7 +144,8 @@ class FakeSnowflakeCursor:
             command, params = self._rewrite_with_params(command, params)
             if self._conn.nop_regexes and any(re.match(p, command, re.IGNORECASE) for p in self._conn.nop_regexes):
                 transformed = transforms.SUCCESS_NOP
-                self._execute(transformed, params)
+                # the success query has no placeholders: parameters still to be bound by the engine (qmark) are not for it
+                self._execute(transformed, None)
                 return self
 
             expression = parse_one(command, read="snowflake")
